@@ -25,6 +25,8 @@ RULES = {
              'change on every path; marker kept iff has_pendding_conflict',
     'C13.c': 'register_arbiter: subscribe first; starts_with(resolved prefix) -> remove, else -> re-send; shared prefix constants',
     'C13.d': 'next_version branch order: keep-marker, resolving, stored-in-conflict, unversioned, versioned',
+    'C13.f': 'the pending-conflict test examines EVERY conflict record of the key: its answer is any/all (or a loop) over the whole '
+             'list returned by the record lister, through element-preserving adaptors only, testing !starts_with(resolved prefix)',
     'C13.e': 'Resolve arm: the primary applies, any other role forwards (both credential branches)',
 }
 
@@ -93,6 +95,7 @@ def run(ck, m):
     # (the error message template takes the conflict key that was handed to the record change)
     # ---- (b) ---------------------------------------------------------------------------
     rc = [b for b in P.user_bodies() if b.kind == 'method' and b.argc == 3 and b.locals[2] == 'nundb::bo::Change' and b.locals[0] == 'nundb::bo::Response']
+    pend = []
     if len(rc) != 1:
         ck.undecided('C13.b', 'resolve', 'anchor', 'expected one (&Database, Change, &Arc<Databases>) -> Response, found %d' % len(rc))
     else:
@@ -152,6 +155,53 @@ def run(ck, m):
                         'record first=%s, record value starts with resolved=%s, key writes (pending/true: %d, false: %d) resolving+marker polarity=%s/%s'
                         % (rec_first, rec_val_ok, len(t_st), len(f_st), t_st and resolving(t_st[0], True), f_st and resolving(f_st[0], False)))
         ck.ob('C13.b', fnb, 'resolve-sequence', okb, whyb, '%s:%s' % (b.file, b.line))
+    # ---- (f) the pending test looks at every record ---------------------------------------
+    if len(rc) == 1 and pend:
+        pb = P.bodies[callee(rc[0].term(pend[0]))]
+        PRESERVE = ('std::ops::Deref::deref', 'std::slice::iter', 'std::iter::Iterator::filter_map', 'std::iter::Iterator::map',
+                    'std::iter::Iterator::collect', 'std::iter::IntoIterator::into_iter', 'std::iter::Iterator::cloned',
+                    'std::iter::Iterator::copied', 'std::vec::Vec::as_slice', 'std::clone::Clone::clone', 'std::iter::Iterator::by_ref',
+                    'std::vec::Vec::iter', 'std::convert::AsRef::as_ref', 'std::borrow::Borrow::borrow')
+        listers = [x for x, t in pb.calls() if P.bodies.get(callee(t)) is not None and P.bodies[callee(t)].locals[0].startswith('std::vec::Vec<')]
+
+        def reaches_lister(bi, seen=None):
+            """does the receiver chain of call bi reach the lister through element-preserving adaptors only?"""
+            seen = seen or set()
+            if bi in seen:
+                return False
+            seen.add(bi)
+            if bi in listers:
+                return True
+            tt_ = pb.term(bi)
+            if callee_decl(tt_) not in PRESERVE and not callee_decl(tt_).startswith(('std::iter::Iterator::any', 'std::iter::Iterator::all', 'std::iter::Iterator::next')):
+                return False
+            if not tt_['args']:
+                return False
+            return any(r[0] == 'call' and reaches_lister(r[1], seen) for r in origins(pb, tt_['args'][0], stop_at_calls=True))
+        quant = [x for x, t in pb.calls() if callee_decl(t) in ('std::iter::Iterator::any', 'std::iter::Iterator::all') and reaches_lister(x)]
+        loops = [x for x, t in pb.calls() if callee_decl(t) == 'std::iter::Iterator::next' and reaches_lister(x) and x in pb.reach_from([x])]
+        ret_from = [r for r in core.place_origins(pb, {'l': 0}, stop_at_calls=True)]
+        answer_is_quant = bool(quant) and all(r[0] == 'call' and r[1] in quant for r in ret_from)
+        # the predicate: !starts_with(resolved prefix)
+        pred_ok = False
+        scope = [pb] + [P.bodies[k] for k in P.bodies if k.startswith(pb.id + '::{closure')]
+        for cb2 in scope:
+            for x, t in cb2.calls():
+                if callee_decl(t) == 'std::str::starts_with' and [const_str(r) for r in origins(cb2, t['args'][1])] == ['resolved']:
+                    dest = t['d']['l']
+                    for bl in cb2.blocks:
+                        for s in bl['s']:
+                            if s['k'] == 'assign' and s['r']['k'] == 'un' and s['r']['op'] == 'Not' and \
+                                    any(r[0] == 'call' and r[1] == x for r in origins(cb2, s['r']['a'], stop_at_calls=True)):
+                                pred_ok = True
+        okf = (answer_is_quant or bool(loops)) and pred_ok and len(listers) >= 1
+        ck.ob('C13.f', short(pb.id), 'every-record-examined', okf,
+              'the pending test is any(!starts_with(resolved)) over every record the lister returns' if okf else
+              'the pending test does not quantify over the whole record list (any/all over the list: %s, loop: %s, predicate '
+              '!starts_with(resolved): %s): a key can leave conflict resolution while an older conflict is still unresolved'
+              % (answer_is_quant, bool(loops), pred_ok), '%s:%s' % (pb.file, pb.line))
+    else:
+        ck.undecided('C13.f', 'pending-test', 'anchor', 'pending-conflict test not located')
     # ---- (c) ---------------------------------------------------------------------------
     ra = [b for b in P.user_bodies() if b.kind == 'method' and b.argc == 2 and b.locals[2] == '&nundb::bo::Client' and b.locals[0] == 'nundb::bo::Response']
     if len(ra) != 1:
@@ -170,9 +220,12 @@ def run(ck, m):
                 pol = all(b.dominates(tt, x) and not b.dominates(ft, x) for x in rem) and \
                     all(b.dominates(ft, x) and not b.dominates(tt, x) for x in send)
                 first = all(b.dominates(watch[0], x) for x in rem + send)
-                okc = pol and first and pref == ['resolved']
+                # every unresolved record is re-sent, every resolved one removed: the effect post-dominates its branch
+                always = any(b.postdominates(x, ft) or x == ft for x in send) and any(b.postdominates(x, tt) or x == tt for x in rem)
+                okc = pol and first and always and pref == ['resolved']
                 whyc = ('subscribes, then removes records that start with %r and re-sends the others' % pref[0] if okc else
-                        'polarity ok=%s, subscribes first=%s, prefix=%s' % (pol, first, pref))
+                        'polarity ok=%s, subscribes first=%s, unconditional on its branch=%s, prefix=%s: an unresolved conflict can stay '
+                        'undelivered to a newly registered arbiter' % (pol, first, always, pref))
         ck.ob('C13.c', short(b.id), 'redeliver-or-clean', okc, whyc, '%s:%s' % (b.file, b.line))
     # ---- (d) ---------------------------------------------------------------------------
     nv = [b for b in P.user_bodies() if b.kind == 'method' and b.locals[0] == 'i32' and b.argc == 2 and b.locals[1] == '&nundb::bo::Change'
